@@ -610,6 +610,15 @@ def kernel_drive(ctx, watch):
         def inet():
             return InteractingNetworks(adjacency=A, silence_level=3)
         l1, l2 = [0, 1, 2, 3], [4, 5, 6, 7]
+
+        def symmetrize():
+            # a public method that takes two arrays (already in the kernel's dtypes, so that a
+            # conversion without copy would alias them) and hands them to a kernel that writes
+            c = CouplingAnalysis(cdata, silence_level=3)
+            sm, lm = c.cross_correlation(tau_max=2, lag_mode="max")
+            held["similarity_matrix"], held["lag_matrix"] = (sm, sm.copy()), (lm, lm.copy())
+            watch.pool += [sm, lm]
+            return c.symmetrize_by_absmax(sm, lm)
         plans = [
             ("Network.local_cliquishness(4)", lambda: net().local_cliquishness(4)),
             ("Network.local_cliquishness(5)", lambda: net().local_cliquishness(5)),
@@ -633,9 +642,7 @@ def kernel_drive(ctx, watch):
              lambda: ResNetwork(res, silence_level=3).edge_current_flow_betweenness()),
             ("CouplingAnalysis.cross_correlation(max)",
              lambda: CouplingAnalysis(cdata, silence_level=3).cross_correlation(tau_max=2, lag_mode="max")),
-            ("CouplingAnalysis.symmetrize_by_absmax",
-             lambda: (lambda c: c.symmetrize_by_absmax(*c.cross_correlation(tau_max=2, lag_mode="max")))(
-                 CouplingAnalysis(cdata, silence_level=3))),
+            ("CouplingAnalysis.symmetrize_by_absmax", symmetrize),
             ("CouplingAnalysis.mutual_information(knn)",
              lambda: CouplingAnalysis(cdata, silence_level=3).mutual_information(
                  tau_max=1, estimator="knn", knn=3)),
